@@ -434,7 +434,14 @@ func makeObjectIsVariadicParamFilter(src, varname string) filterFunc {
 
 func makeObjectIsGlobalFilter(src, varname string) filterFunc {
 	return func(params *filterParams) matchFilterResult {
-		obj := params.ctx.Types.ObjectOf(identOf(params.subExpr(varname)))
+		ident := identOf(params.subExpr(varname))
+		if ident == nil {
+			return filterFailure(src) // Not an identifier: no object to talk about
+		}
+		obj := params.ctx.Types.ObjectOf(ident)
+		if obj == nil {
+			return filterFailure(src)
+		}
 		globalScope := params.ctx.Pkg.Scope()
 		if obj.Parent() == globalScope {
 			return filterSuccess
